@@ -94,7 +94,13 @@ func (c *Cursor) Last() (key []byte, value []byte) {
 // The returned key and value are only valid for the life of the transaction.
 func (c *Cursor) Next() (key []byte, value []byte) {
 	common.Assert(c.bucket.tx.db != nil, "tx closed")
-	k, v, flags := c.next()
+	k, v, flags, skipped := c.nextSkipping()
+	if k == nil && skipped {
+		// Ran off the end across pages emptied earlier in this transaction:
+		// stay on the last element, as when no page had to be skipped.
+		c.Last()
+		return nil, nil
+	}
 	if (flags & uint32(common.BucketLeafFlag)) != 0 {
 		return k, nil
 	}
@@ -213,6 +219,13 @@ func (c *Cursor) last() {
 // next moves to the next leaf element and returns the key and value.
 // If the cursor is at the last leaf element then it stays there and returns nil.
 func (c *Cursor) next() (key []byte, value []byte, flags uint32) {
+	key, value, flags, _ = c.nextSkipping()
+	return key, value, flags
+}
+
+// nextSkipping is next; it also reports whether it had to step over an empty
+// page (calling Delete may result in empty pages).
+func (c *Cursor) nextSkipping() (key []byte, value []byte, flags uint32, skipped bool) {
 	for {
 		// Attempt to move over one element until we're successful.
 		// Move up the stack as we hit the end of each page in our stack.
@@ -228,7 +241,7 @@ func (c *Cursor) next() (key []byte, value []byte, flags uint32) {
 		// If we've hit the root page then stop and return. This will leave the
 		// cursor on the last element of the last page.
 		if i == -1 {
-			return nil, nil, 0
+			return nil, nil, 0, skipped
 		}
 
 		// Otherwise start from where we left off in the stack and find the
@@ -239,10 +252,12 @@ func (c *Cursor) next() (key []byte, value []byte, flags uint32) {
 		// If this is an empty page then restart and move back up the stack.
 		// https://github.com/boltdb/bolt/issues/450
 		if c.stack[len(c.stack)-1].count() == 0 {
+			skipped = true
 			continue
 		}
 
-		return c.keyValue()
+		key, value, flags = c.keyValue()
+		return key, value, flags, skipped
 	}
 }
 
